@@ -118,6 +118,8 @@ protected:
 	AspifOutput& startDir(Directive_t r);
 	//! Writes x.
 	AspifOutput& add(int x);
+	//! Writes the id x.
+	AspifOutput& add(Id_t x);
 	//! Writes size(lits) followed by the elements in lits.
 	AspifOutput& add(const WeightLitSpan& lits);
 	//! Writes size(lits) followed by the literals in lits.
